@@ -104,6 +104,8 @@ _VALUES: List[Tuple[str, str, Any, bool]] = [
     ("str_nul", "str_unicode", "a\x00b", False),
     ("str_surrogate", "str_surrogate", "\ud800", False),
     ("str_iso_date", "str_iso_date", "2020-01-02", False),
+    ("str_long_40", "str_long", "order-2024-europe-" + "0" * 21 + "7", True),
+    ("str_long_300", "str_long", "z" * 299 + "y", False),
     ("bytes_ab", "bytes", b"ab", True),
     ("bytes_nonutf8", "bytes_nonutf8", b"\xff\xfe", False),
     ("bytes_empty", "bytes", b"", False),
